@@ -48,7 +48,7 @@ def int_range(T, fortran_safe):
 def value_of(draw, T, fortran_safe=True):
     if T in INT_TYPES:
         lo, hi = int_range(T, fortran_safe)
-        return draw(st.sampled_from([0, 1, lo, hi, min(hi, 42), max(lo, -7) if lo < 0 else 7, hi // 2]))
+        return draw(st.sampled_from([0, 1, lo, hi, min(hi, 42), max(lo, -7) if lo < 0 else 7, hi // 2, -1 if lo < 0 else 2]))
     if T in FLT_TYPES:
         return draw(st.sampled_from(FLT_VALUES))
     if T == "bool":
@@ -527,6 +527,15 @@ def klass(draw, lang, fid, name, for_fortran=True, results=None, types=None, row
                           allowed=[r for r in SIMPLE_ROWS if rows is None or r in rows], results=results, types=types))
         c["methods"].append(f)
         fid += 1
+    if not for_fortran and rows is None and draw(st.booleans()):
+        # read / write accessor pair: two methods that differ only in the trailing const, each with its own
+        # function_suffix (classes.rst); the C function of the const declaration must reach the const overload
+        for cst, suf in ((True, "_const"), (False, "_mut")):
+            f = dict(name="both", fid=fid, cls=name, kind="method", params=[], ret=dict(row="N", T="int", ctype="int", attrs=""),
+                     const=cst, suffix=suf, calls=[])
+            f["calls"] = [draw(call_vector(f, for_fortran)) for _ in range(2)]
+            c["methods"].append(f)
+            fid += 1
     if draw(st.booleans()):
         f = draw(function(lang, fid, "smethod", cls=name, kind="smethod", max_params=2, for_fortran=for_fortran,
                           allowed=["N1", "B1"], results=results, types=types))
@@ -538,6 +547,14 @@ def klass(draw, lang, fid, name, for_fortran=True, results=None, types=None, row
     mk["calls"] = [draw(call_vector(mk, for_fortran)) for _ in range(2)]
     c["makers"].append(mk)
     fid += 1
+    if rows is None:
+        # a factory without ownership attribute (owner(library) is only Shroud's default): the object is a new
+        # one on every call, and the caller may delete it through the destructor wrapper like `delete p` in C++
+        fr = dict(name="fresh_obj", fid=fid, cls=None, kind="make", params=[P("flag", "N1", "int", "int flag")], ret=None,
+                  const=False, suffix=None, calls=[], owned=True, fresh=True, rclass=name)
+        fr["calls"] = [draw(call_vector(fr, for_fortran)) for _ in range(2)]
+        c["makers"].append(fr)
+        fid += 1
     bw = dict(name="borrow_obj", fid=fid, cls=None, kind="make", params=[], ret=None, const=False, suffix=None,
               calls=[dict(inputs={}, outputs={})] * 2, owned=False, rclass=name)
     c["makers"].append(bw)
@@ -606,7 +623,7 @@ def to_yaml(lib, options=None):
         decls.append({"decl": "class " + c["name"], "declarations": inner})
         for f in c["makers"]:
             decls.append(fdecl(f, "%s *%s(%s)%s" % (c["name"], f["name"], ", ".join(p["ctype"] for p in f["params"]),
-                                                      " +owner(caller)" if f["owned"] else " +owner(library)")))
+                                                      "" if f.get("fresh") else " +owner(caller)" if f["owned"] else " +owner(library)")))
         for f in c["users"]:
             decls.append(fdecl(f))
     doc = {"library": lib["name"], "language": lib["language"], "cxx_header": lib["cheader"],
